@@ -159,7 +159,7 @@ def run_inst(spec, run):
                 lo, hi = S.term(nd.bounds.lower), S.term(nd.bounds.upper)
                 sv.append(lo == hi if mu != "allow_fixed" else lo <= hi)
             run.obligation(ctx, "no-fixed-variable-left", z3.Or(sv), conc)
-        run.validate(ctx, conc, lambda m: {"val": [S.model_int(m, val.lower), S.model_int(m, val.upper)], "single": single})
+        run.validate(ctx, conc, lambda m: {"val": [S.model_int(m, val.lower), S.model_int(m, val.upper)], "single": single}, extremes=plh.extremes(env))
         run.sample({"model": pl.show(model_spec), "assumed": spec["assumed"], "path_condition": [str(z3.simplify(c)) for c in ctx.pc][:6],
                     "reduced": repr(red)[:200]})
 
